@@ -13,13 +13,19 @@
 //!   DP <now> <reg>              drop the publication handle
 //!   H <reg> <idx>               keep a clone of images()[idx] of a subscription
 //!   UH <j>                      drop the j-th kept clone
+//!   E <now>                     ON_ERROR with error code 4 (channel endpoint error) for channel status indicator 5 - the one every
+//!                               subscription of this harness is registered on (publications: 2) - + do_work
 //!   X <now>                     Agent::on_close
 //!   ST                          the driver stalls: the harness fills the to-driver ring with keep-alive commands until it refuses
 //!                               even the smallest one; nothing is drained until DR
 //!   DR                          the driver consumes the whole ring
 //! observation per op:
 //!   OStep <result> [(kind, reg, corr, closed); ..callbacks of this op..] [(reg, [(corr, closed); ..]); ..held subscriptions..]
-//!         [..file ids mapped according to /proc/self/maps..] [..is_closed of kept clones..]
+//!         [..file ids mapped according to /proc/self/maps..] [..kept clones: 0 open, 1 closed and silent, 2+f closed but poll flavour f
+//!         (0 poll, 1 bounded_poll, 2 controlled_poll, 3 bounded_controlled_poll, 4 controlled_peek, 5 block_poll) still delivered a
+//!         fragment / block or moved the subscriber position..]
+//! Every log file holds one committed, unread data frame at the position the images join at, so a poll that ignores the closed
+//! flag has something to deliver; a closed ("no longer polled") image is polled with every flavour after every operation.
 //! `OPanic` ends the history (the conductor mutex is poisoned).
 #[path = "../../c11/src/client.rs"]
 mod client;
@@ -27,7 +33,7 @@ mod client;
 use aeron_rs::concurrent::agent_runner::Agent;
 use aeron_rs::concurrent::atomic_buffer::AtomicBuffer;
 use aeron_rs::concurrent::logbuffer::log_buffer_descriptor as lbd;
-use aeron_rs::image::Image;
+use aeron_rs::image::{ControlledPollAction, Image};
 use aeron_rs::publication::Publication;
 use aeron_rs::subscription::Subscription;
 use aeron_rs::utils::errors::{AeronError, GenericError};
@@ -103,6 +109,16 @@ impl Files {
                 md.put::<i32>(*lbd::LOG_PAGE_SIZE_OFFSET, lbd::AERON_PAGE_MIN_SIZE);
                 md.put::<i32>(*lbd::LOG_MTU_LENGTH_OFFSET, 1408);
                 md.put::<i32>(*lbd::LOG_INITIAL_TERM_ID_OFFSET, 7);
+                // one committed data frame (32-byte header + 32 bytes) at offset 0 of the first term: session 300, stream 10, term id 7
+                let t0 = m.atomic_buffer(0, term);
+                t0.put::<u8>(4, 0);
+                t0.put::<u8>(5, 0xC0);
+                t0.put::<u16>(6, 1);
+                t0.put::<i32>(8, 0);
+                t0.put::<i32>(12, 300);
+                t0.put::<i32>(16, 10);
+                t0.put::<i32>(20, 7);
+                t0.put_ordered::<i32>(0, 64);
             } // unmapped again here
             names.push(name);
         }
@@ -129,6 +145,44 @@ fn api_err(e: &AeronError) -> String {
         AeronError::IllegalState(_) => "IllegalState".into(),
         _ => "OtherErr".into(),
     }
+}
+
+static BLOCKS: AtomicU64 = AtomicU64::new(0);
+fn on_block(_b: &AtomicBuffer, _offset: i32, _length: i32, _session: i32, _term: i32) {
+    BLOCKS.fetch_add(1, Ordering::SeqCst);
+}
+
+/// A closed image is "no longer polled": every poll flavour must deliver nothing and leave the subscriber position alone.
+/// Returns 1 when that is so, otherwise 2 + the index of the first flavour that delivered or moved the position.
+fn poll_closed(img: &Image, c: &Client) -> i32 {
+    let mut i = img.clone();
+    let pos_of = |i: &Image| c.counter_value(i.subscriber_position_id());
+    let before = pos_of(&i);
+    let mut n = 0u64;
+    for f in 0..6 {
+        let delivered: i64 = match f {
+            0 => i.poll(&mut |_b: &AtomicBuffer, _o, _l, _h| n += 1, 10) as i64,
+            1 => i.bounded_poll(|_b: &AtomicBuffer, _o, _l, _h| n += 1, i64::MAX, 10) as i64,
+            2 => i.controlled_poll(|_b: &AtomicBuffer, _o, _l, _h| { n += 1; Ok(ControlledPollAction::Continue) }, 10) as i64,
+            3 => i.bounded_controlled_poll(|_b: &AtomicBuffer, _o, _l, _h| { n += 1; Ok(ControlledPollAction::Continue) }, i64::MAX, 10) as i64,
+            4 => {
+                let r = i.controlled_peek(before, |_b: &AtomicBuffer, _o, _l, _h| { n += 1; Ok(ControlledPollAction::Continue) }, i64::MAX);
+                match r {
+                    Ok(p) => p - before,
+                    Err(_) => 0,
+                }
+            },
+            _ => {
+                let b0 = BLOCKS.load(Ordering::SeqCst);
+                let r = i.block_poll(on_block, 4096) as i64;
+                r + (BLOCKS.load(Ordering::SeqCst) - b0) as i64
+            },
+        };
+        if delivered != 0 || n != 0 || pos_of(&i) != before {
+            return 2 + f;
+        }
+    }
+    1
 }
 
 struct World {
@@ -163,7 +217,11 @@ impl World {
             })
             .collect();
         let maps: Vec<String> = self.files.mapped().iter().map(|f| f.to_string()).collect();
-        let held: Vec<String> = self.clones.iter().map(|i| (i.is_closed() as i32).to_string()).collect();
+        let held: Vec<String> = self
+            .clones
+            .iter()
+            .map(|i| if i.is_closed() { catch(|| poll_closed(i, &self.c)).unwrap_or(9) } else { 0 }.to_string())
+            .collect();
         format!("OStep {} [{}] [{}] [{}] [{}]", result, cbs.join("; "), views.join("; "), maps.join("; "), held.join("; "))
     }
 }
@@ -258,6 +316,10 @@ fn run_case(line: &str) -> String {
                 w.cycle(a[0] as u64).map(|_| "(Ok (0))".to_string())
             },
             "T" => w.cycle(a[0] as u64).map(|_| "(Ok (0))".to_string()),
+            "E" => {
+                w.c.send_error_response(5, 4, "endpoint");
+                w.cycle(a[0] as u64).map(|_| "(Ok (0))".to_string())
+            },
             "DS" => {
                 set_clock(a[0] as u64);
                 if let Some(pos) = w.subs.iter().position(|(r, _)| *r == a[1]) {
